@@ -48,6 +48,20 @@ pub open spec fn callee_code(m: Map<String, AssemblyCode>, f: Seq<char>) -> Opti
 """
 
 
+PURGE_STUB = """
+    // purge_deferred_plusplus_and_savey: what it emits is generate_plusplus's (U-plusplus); here only WHEN it runs: the length of the code at that moment
+    #[verifier::external_body] fn purge_deferred_plusplus_and_savey(&mut self) -> (res: Result<(), Error>)
+        ensures res is Ok, final(self).purged_at@ == old(self).out.code@.len(), final(self).out == old(self).out, final(self).current_function == old(self).current_function,
+            final(self).protected == old(self).protected, final(self).functions_code == old(self).functions_code, final(self).inline_label_counter == old(self).inline_label_counter,
+    { unimplemented!() }
+    // purge_before_return: the same flush, followed by an instruction that sets N/Z from A when the flush emitted anything (not modelled here: only WHEN it runs)
+    #[verifier::external_body] fn purge_before_return(&mut self, returns_value: bool, pos: usize) -> (res: Result<(), Error>)
+        ensures res is Ok, final(self).purged_at@ == old(self).out.code@.len(), final(self).out == old(self).out, final(self).current_function == old(self).current_function,
+            final(self).protected == old(self).protected, final(self).functions_code == old(self).functions_code, final(self).inline_label_counter == old(self).inline_label_counter,
+    { unimplemented!() }
+"""
+
+
 def build(repo):
     u = Unit(NAME, TOOL, PROPS, ["src/generate/generate_asm.rs: GeneratorState::push_code", "src/generate/generate_statements.rs: GeneratorState::generate_return (tail: RTS vs JMP .endof, R8)"],
              assumptions=["callee contracts: append_code (proved in U-appcode), append_label (U-size), asm/sasm (U-asm): same header text spliced here as external_body stubs",
@@ -105,14 +119,24 @@ def build(repo):
             }""")
     # generate_return tail
     s0, ob0, cb0 = gs.find_fn_span("generate_return")
-    tail = gs.block(r"^\s*if f\.inline\b", r"^\s*self\.acc_in_use = false;", s0, cb0, desc="generate_return(): tail `if f.inline { JMP .endof } else { RTS }` (R8)")
+    # the tail starts at the flush of the deferred side effects when it stands right before the if, at the if otherwise
+    mm = gs.masked
+    ifm = re.compile(r"^[ \t]*if f\.inline\b", re.M).search(mm, ob0, cb0)
+    pm = [x for x in re.finditer(r"^[ \t]*self\.(?:purge_deferred_plusplus_and_savey\(\)|purge_before_return\([^;\n]*\))\?;[ \t]*\n", mm[ob0:cb0], re.M)]
+    start_re = r"^\s*if f\.inline\b"
+    if ifm and pm and not mm[ob0 + pm[-1].end():ifm.start()].strip() and ob0 + pm[-1].end() <= ifm.start():
+        start_re = r"^[ \t]*self\.(?:purge_deferred_plusplus_and_savey\(\)|purge_before_return\([^;\n]*\))\?;(?=[ \t]*\n\s*if f\.inline\b)"
+    tail = gs.block(start_re, r"^\s*self\.acc_in_use = false;", s0, cb0, desc="generate_return(): tail (flush of the deferred side effects,) `if f.inline { JMP .endof } else { RTS }` (R8)")
     cuts.append(tail)
     tail.sub(r"\"\.endof\"\.into\(\)", '".endof".to_string()', "R3-into", expect=(0, 1))
+    tail.sub(r"\bf\.return_type\.is_some\(\)", "returns_value", "R8 free expression of the window -> parameter", expect=(0, 1))
     ret = """
     // R8: tail of generate_return(), verbatim; `f.inline` is the free variable
-    pub fn return_tail(&mut self, f: &FunctionShim) -> (res: Result<(), Error>)
-        requires old(self).current_function is Some,
+    pub fn return_tail(&mut self, f: &FunctionShim, returns_value: bool, pos: usize) -> (res: Result<(), Error>)
+        requires old(self).current_function is Some, old(self).purged_at@ == -1,
         ensures res is Ok,
+            // the post-increments of the returned expression (and a borrowed Y) are dealt with before control leaves, in both placements
+            final(self).purged_at@ == old(self).out.code@.len(), //@ C01,C14:ret-flushes-deferred-before-leaving
             emitted_one(old(self).out.code@, final(self).out.code@), //@ C14:ret-one-instruction
             // an inline body returns by jumping to its end label, a called body by RTS
             f.inline ==> new_inst(old(self).out.code@, final(self).out.code@).mnemonic == AsmMnemonic::JMP && new_inst(old(self).out.code@, final(self).out.code@).dasm_operand@ == ".endof"@, //@ C14,C13:ret-inline-jumps-to-end
@@ -124,13 +148,17 @@ def build(repo):
     }
 """ % tail.text
     fshim, fcut = common.plain_fields_shim(SourceFile(repo, "src/compile.rs"), "Function", "FunctionShim")
-    shim = e["shim"].replace("    pub inline_label_counter: u32,\n", "    pub inline_label_counter: u32,\n    pub functions_code: HashMap<String, AssemblyCode>,\n")
+    shim = e["shim"].replace("    pub inline_label_counter: u32,\n", "    pub inline_label_counter: u32,\n    pub functions_code: HashMap<String, AssemblyCode>,\n    pub purged_at: Ghost<int>,\n")
+    # the emission stubs do not touch the ghost field this unit adds
+    stubs = e["stubs"].replace("final(self).carry_flag_ok == old(self).carry_flag_ok,", "final(self).carry_flag_ok == old(self).carry_flag_ok, final(self).purged_at == old(self).purged_at,")
+    if stubs.count("final(self).purged_at == old(self).purged_at") < 2:
+        raise Undecided("U-asm stubs changed shape")
     if "functions_code" not in shim:
         raise Undecided("U-asm shim changed shape")
     text = common.PRELUDE + common.header_comment(NAME, cuts) + "verus! {\n" + e["types"] + e["specs"] + \
         fshim + u_appcode.SPECS + \
         e["append_impl"].replace("impl AssemblyCode {\n", "impl AssemblyCode {\n" + append_code_stub, 1) + shim + SPECS + fm.text() + \
-        "impl<'a> GeneratorState<'a> {\n" + e["stubs"] + "\n" + pc.text + "\n" + ret + "\n}\n" + common.CANARY + "\n} // verus!\n"
+        "impl<'a> GeneratorState<'a> {\n" + stubs + PURGE_STUB + "\n" + pc.text + "\n" + ret + "\n}\n" + common.CANARY + "\n} // verus!\n"
     u.text[None] = text
     u.rewrites = common.collect_rewrites(cuts)
     u.dropped = ["R5/R6 shim environment of U-asm (+ functions_code map)", "generate_return outside its last if/else (value evaluation, error cases)"]
